@@ -334,7 +334,7 @@ async def stacked_history(force_unstacked=False):
         for s in ("a", "b"):
             conn = host
             stacked = rng.random() < 0.75 and not force_unstacked
-            for lvl in range(rng.randint(1, 3)):
+            for lvl in range(rng.choice([1, 2, 2, 3, 3])):
                 cap = float(rng.choice([2, 3, 4]))
                 conn = Stacked(f"l{lvl}-{s}", workdir, conn, f"l{lvl}-{s}-loc", cap, slots=int(cap) if slot_mode else None, stacked=stacked)
                 deployments[conn.deployment_name] = conn
@@ -405,7 +405,7 @@ async def search(n):
         bad = await real_usage_history()
         if bad:
             return bad
-    for _ in range(max(4, n // 2)):
+    for _ in range(min(max(120, 4 * n), 2000)):
         bad = await stacked_history() or await stacked_history(force_unstacked=True) or await multi_target_history()
         if bad:
             return bad
